@@ -156,14 +156,45 @@ def make_wrappers(ctl):
             with ctl.lock:
                 k = self._puts
                 self._puts += 1
-            op = ctl.before('q_put', self._n, k=k, item=item if isinstance(item, str) else repr(item))
-            self._q.put(item)
+            kw = {}
+            if self._q.maxsize > 0:
+                kw['maxsize'] = self._q.maxsize          # a bounded queue: put can block (or fail) when it is full
+                if not block or timeout is not None:
+                    kw['nonblock'] = True
+            op = ctl.before('q_put', self._n, k=k, item=item if isinstance(item, str) else repr(item), **kw)
+            if kw.get('nonblock'):
+                try:
+                    self._q.put(item, block, timeout)    # the real semantics: may raise queue.Full
+                except _queue.Full:
+                    ctl.after(op, failed=True)
+                    raise
+            elif kw:
+                def attempt(t):
+                    try:
+                        self._q.put(item, True, t)
+                        return True
+                    except _queue.Full:
+                        return False
+                _blocking(ctl, attempt, lambda r: r)
+            else:
+                self._q.put(item)
             ctl.after(op)
 
         def get(self, block=True, timeout=None):
             with ctl.lock:
                 k = self._gets
                 self._gets += 1
+            if not block or timeout is not None:
+                # get_nowait / get with a time limit: the real semantics (may raise queue.Empty, which is what the
+                # program would see); recorded as a non-blocking operation
+                op = ctl.before('q_get', self._n, k=k, nonblock=True)
+                try:
+                    item = self._q.get(block, timeout)
+                except _queue.Empty:
+                    ctl.after(op, failed=True)
+                    raise
+                ctl.after(op, item=item if isinstance(item, str) else repr(item))
+                return item
             op = ctl.before('q_get', self._n, k=k)
 
             def attempt(t):
@@ -174,6 +205,12 @@ def make_wrappers(ctl):
             r = _blocking(ctl, attempt, lambda r: r is not None)
             ctl.after(op, item=r[0] if isinstance(r[0], str) else repr(r[0]))
             return r[0]
+
+        def put_nowait(self, item):
+            return self.put(item, block=False)
+
+        def get_nowait(self):
+            return self.get(block=False)
 
         def empty(self):
             return self._q.empty()
